@@ -24,3 +24,5 @@ def produce(fname, k):
     """Body of the table-driven harness functions: record the run, then return/raise TABLE[(fname, k)]()."""
     _log.append((fname, {"k": k}))
     return TABLE[(fname, k)]()
+
+PART_LEVELS = []
